@@ -592,6 +592,110 @@ def reach_order_stream(ctx, budget, n, base_index=400000):
         check_history(budget, 'isolation-wide:reach-order', i, ops, attribute=attribute_c07)
 
 
+def gen_reach_lite(rng):
+    """gen_reach_order in the universe the Lean cache state machine models (type-node classes, dump side: key transform, TIMESTAMP,
+    recursive): two or three roots over one nested class N without a Meta - at least one bare or non-recursive, at least one with a
+    recursive Meta that sets a dump-side setting -, N on its own now and then, one or two bystander families; dumps only, the
+    families first used in a uniformly drawn order, late class statements.  Returns (ops, lite)."""
+    n = model.fresh('N')
+    ncls = mk_cls(n, None, pick_meta(rng) if rng.random() < 0.1 else None, rng.random() < 0.5)
+    lite = {n: {'own': model.own_meta(ncls['info']), 'nested': []}}
+    fams = []
+
+    def dump_cfg():
+        m = {}
+        which = rng.choice(['kt', 'ts', 'both'])
+        if which != 'ts':
+            m['key_transform_with_dump'] = rng.choice(['SNAKE', 'PASCAL', 'LISP'])
+        if which != 'kt':
+            m['marshal_date_time_as'] = 'TIMESTAMP'
+        return m
+    configs = [rng.choice(['bare', 'bare', 'non-recursive']), 'dump-config'] + ([rng.choice(['bare', 'non-recursive', 'dump-config', 'any'])] if rng.random() < 0.5 else [])
+    for config in configs:
+        r = model.fresh('R')
+        meta = {'bare': lambda: None, 'non-recursive': lambda: dict(dump_cfg(), recursive=False), 'dump-config': dump_cfg,
+                'any': lambda: pick_meta(rng)}[config]()
+        rcls = mk_cls(r, ncls, meta, True if meta is not None else rng.random() < 0.5)
+        lite[r] = {'own': model.own_meta(rcls['info']), 'nested': [n]}
+        fams.append(([{'op': 'def', 'ty': rcls}], [{'op': 'dump', 'cls': r, 'expr': inst_expr(r, inst_expr(n)), 'uses': [r, n]}]))
+    if rng.random() < 0.3:
+        fams.append(([], [{'op': 'dump', 'cls': n, 'expr': inst_expr(n), 'uses': [n]}]))
+    for _ in range(rng.choice([1, 1, 2])):
+        g = model.fresh('G')
+        g_meta = pick_meta(rng) if rng.random() < 0.2 else None
+        if rng.random() < 0.7:
+            n2 = model.fresh('N')
+            n2cls = mk_cls(n2, None, None, rng.random() < 0.5)
+            gcls = mk_cls(g, n2cls, g_meta, True if g_meta is not None else rng.random() < 0.5)
+            lite[n2] = {'own': None, 'nested': []}
+            lite[g] = {'own': model.own_meta(gcls['info']), 'nested': [n2]}
+            pool = [{'op': 'dump', 'cls': g, 'expr': inst_expr(g, inst_expr(n2)), 'uses': [g, n2]}, {'op': 'dump', 'cls': n2, 'expr': inst_expr(n2), 'uses': [n2]}]
+        else:
+            gcls = mk_cls(g, None, g_meta, True if g_meta is not None else rng.random() < 0.5)
+            lite[g] = {'own': model.own_meta(gcls['info']), 'nested': []}
+            pool = [{'op': 'dump', 'cls': g, 'expr': inst_expr(g), 'uses': [g]}]
+        fams.append(([{'op': 'def', 'ty': gcls}], pool))
+    rng.shuffle(fams)
+    top, seq = [{'op': 'def', 'ty': ncls}], []
+    for defs, pool in fams:
+        if rng.random() < 0.5:
+            top += defs
+        else:
+            seq += defs
+        seq += [copy.deepcopy(rng.choice(pool)) for _ in range(rng.randint(1, 2))]
+    for _ in range(rng.randint(0, 3)):
+        seq.append(copy.deepcopy(rng.choice(rng.choice(fams)[1])))
+    return top + seq, lite
+
+
+def caches_reach_stream(ctx, n, base_index=500000):
+    """gen_reach_lite histories: every dump's (class, key style, timestamps?) fingerprint, observed in a forked pristine child, against
+    the Lean cache state machine - in which a bystander's dump is what it is in a fresh process (C07_disjoint)"""
+    import random
+    rng = random.Random(f'{ctx.prop_id}:{ctx.seed}:caches-reach')
+    reqs, pend, runs = [], [], []
+    for j in range(n):
+        i = base_index + j
+        if ctx.done(i):
+            break
+        ops, lite = gen_reach_lite(rng)
+        if not ctx.begin_case(i):
+            continue
+        names = list(lite)
+        idx = {nm: k for k, nm in enumerate(names)}
+        mdefs = [{'id': idx[nm], 'own': lite_meta(lite[nm]['own']), 'nested': [idx[x] for x in lite[nm]['nested']]} for nm in names]
+        mops = [['define', idx[nm]] for nm in _def_order(ops, names)]
+        watch = []
+        for k, op in enumerate(ops):
+            if op['op'] == 'dump':
+                mops.append(['dump', idx[op['cls']]])
+                watch.append((k, len(mops) - 1, [op['cls']] + lite[op['cls']]['nested']))
+        runs.append(ops)
+        reqs.append({'op': 'caches', 'defs': mdefs, 'ops': mops})
+        pend.append(({'history': ops}, watch, names))
+    fulls = hist.run_forked(runs) if runs else []
+    keep = []
+    for (case, watch, names), full, req in zip(pend, fulls, reqs):
+        if full and full[0] and full[0][0] == 'harness-error':
+            ctx.count('harness_error')
+            continue
+        ctx.seen('caches', case)
+        keep.append((case, full, watch, names, req))
+    if ctx.model_available and keep:
+        outs = ctx.driver.run([k[4] for k in keep])
+        for (case, full, watch, names, _), o in zip(keep, outs):
+            if 'err' in o and 'r' not in o:
+                ctx.agree('caches', case, 'impl', {'driver_error': o['err']})
+                continue
+            mouts = o['r']['outs']
+            for k, mk, order in watch:
+                fp = fingerprint(full[k], order)
+                if fp is None:
+                    continue
+                mfp = [[names[c], st, ts] for c, st, ts in mouts[mk]]
+                ctx.agree('caches', {'history': case['history'], 'position': k}, fp, mfp)
+
+
 class Name(str):
     """a setting given by reference to a module-level object: rendered as the bare name in class source"""
 
@@ -797,7 +901,8 @@ def run(ctx: C.Ctx):
                 'bystander families, first used in a uniformly drawn order, class statements at the top or right before the first use) in every '
                 'operation order (G before F, after F, interleaved); each history runs in a forked pristine child; every G operation is re-run '
                 'with only G\'s definitions in another pristine child (C07: behaviour of G with F == behaviour of G alone); dump outcomes are '
-                'reduced to (class, key style, timestamps?) fingerprints and compared with the Lean cache state machine. '
+                'reduced to (class, key style, timestamps?) fingerprints and compared with the Lean cache state machine - also over dump-only '
+                'histories of the last kind (roots over a Meta-less N, bystanders, first-use orders) in the machine\'s own universe. '
                 'Non-trivial = distinct (family pair, order, position).')
     n = ctx.quick(440, 4800)
     reqs, pend = [], []
@@ -849,6 +954,7 @@ def run(ctx: C.Ctx):
     bystander_stream(ctx, budget, ctx.quick(70, 800))
     shared_object_stream(ctx, budget, ctx.quick(70, 800))
     reach_order_stream(ctx, budget, ctx.quick(60, 700))
+    caches_reach_stream(ctx, ctx.quick(80, 1000))
     if ctx.model_available and reqs:
         outs = ctx.driver.run(reqs)
         for (case, full, watch, names), o in zip(pend, outs):
